@@ -6,6 +6,7 @@ mod ctx;
 mod gen_sv;
 mod lexer;
 mod mon_facts;
+mod mon_hist;
 mod mon_iter;
 mod mon_tile;
 mod mutate;
@@ -42,6 +43,18 @@ fn main() {
         "run" => run(&args),
         "selftest" => selftest(),
         "probe" => probe(&args),
+        "memo1" => props::c17::memo1_main(&args),
+        "memo" => {
+            let mut src = String::new();
+            use std::io::Read;
+            std::io::stdin().read_to_string(&mut src).unwrap();
+            for fa in [false, true] {
+                for cap in [None, Some(0usize), Some(4096), Some(256), Some(64), Some(16)] {
+                    let (r, i) = props::c17::run_at(&src, api::Gram::Sv, args.iter().any(|a| a == "-i"), cap, fa);
+                    println!("flag_aware={} cap={:?}: {:?} pushes={} ev={} gm={}", fa, cap, r, i.version_pushes, i.c.evictions, i.c.hits_with_different_guard_bits);
+                }
+            }
+        }
         _ => {
             eprintln!("unknown command {}", args[1]);
             std::process::exit(2);
